@@ -39,18 +39,24 @@ def true_pos(src, k):
 
 
 def corrupt_lex(case, rnd):
-    """Move one predicted token position one column to the right."""
+    """Move the predicted position of the first token one column to the right."""
     c = copy.deepcopy(case)
-    cand = [t for t in c.get('toks', []) if t['k'] != 'illegal']
-    if not cand:
+    if not c.get('toks') or c['toks'][0]['k'] == 'illegal':
         return None
-    rnd.choice(cand)['col'] += 1
+    c['toks'][0]['col'] += 1
     return c
+
+
+def rejected_for_sure(case):
+    """The parser certainly rejects this source: the Scan() stream ends in ILLEGAL and there is no slash (after a
+    slash the parser reads a regex with ScanRegex, so its token stream is not the one predicted for rx = FALSE)."""
+    t = case.get('toks') or [{}]
+    return (not case.get('rx')) and t[-1].get('k') == 'illegal' and 47 not in case['src'] and 0 not in case['src']
 
 
 def corrupt_parse(case, rnd):
     """Shrink the table of existing positions so that the error position of a rejected source is outside it."""
-    if case.get('rx') or not case.get('toks') or case['toks'][-1]['k'] != 'illegal':
+    if not rejected_for_sure(case):
         return None
     c = copy.deepcopy(case)
     for row in c['lt']:
@@ -59,12 +65,14 @@ def corrupt_parse(case, rnd):
 
 
 def corrupt_cli(case, rnd):
-    t = case.get('toks') or [{}]
-    if case.get('rx') or t[-1].get('k') != 'illegal' or t[-1].get('why') != 'char' or 0 in case['src']:
+    """No position exists any more, and every 'line' of the program text is the whole text (which the tool
+    never shows, as it contains a newline)."""
+    if not rejected_for_sure(case) or case['toks'][-1].get('why') != 'char':
         return None
     c = copy.deepcopy(case)
+    n = len(case['src']) + (1 if case['cliadd'] else 0)
     for row in c['clt']:
-        row['w'] = -1
+        row['w'], row['lo'], row['hi'] = -1, 0, n
     return c
 
 
@@ -140,7 +148,7 @@ def run(ctx):
         mc5 = ctx.cfg('MC_Lexer', name='MC_Lexer_len5', constants={'MaxLen': 5, 'MaxLenFree': 2, 'Alpha': ALPHA11})
         ctx.tlc('MC_Lexer', mc5, timeout=2400, heap='10g')
         # the invariant must bite: with unread() as found in the pinned tree TLC has to find a violation
-        ab = ctx.cfg('MC_Lexer', name='MC_Lexer_asbuilt', constants={'MaxLen': 3, 'MaxLenFree': 0, 'AsBuilt': 'TRUE'})
+        ab = ctx.cfg('MC_Lexer', name='MC_Lexer_asbuilt', constants={'MaxLen': 3, 'MaxLenFree': 0, 'AsBuilt': 'TRUE', 'Alpha': '{49, 101, 43, 13, 10}'})
         res = ctx.tlc('MC_Lexer', ab, timeout=600, allow_fail=True, label='MC_Lexer(as-built unread, violation expected)')
         log = open(res['log']).read()
         if res['ok'] or 'Invariant PosInStepInv is violated' not in log:
@@ -162,17 +170,17 @@ def run(ctx):
         ctx.tlc('Gen_Lexer', g2, capture='cases.ndjson', timeout=1500)
         s1 = ctx.cfg('Gen_Lexer', name='Gen_Lexer_simbytes', constants={'Fams': '{"bytes"}', 'Sim': 'TRUE', 'Targets': iset(6, 24),
                                                                          'Alpha': ALPHA_RICH})
-        ctx.tlc('Gen_Lexer', s1, capture='cases.ndjson', simulate=60000, depth=26, workers=1, timeout=1200)
+        ctx.tlc('Gen_Lexer', s1, capture='cases.ndjson', simulate=15000, depth=28, workers=4, timeout=1200)
         s2 = ctx.cfg('Gen_Lexer', name='Gen_Lexer_simsoup', constants={'Fams': '{"soup"}', 'Sim': 'TRUE', 'Targets': iset(3, 12),
                                                                         'TokSet': iset(1, 50)})
-        ctx.tlc('Gen_Lexer', s2, capture='cases.ndjson', simulate=60000, depth=14, workers=1, timeout=1200)
+        ctx.tlc('Gen_Lexer', s2, capture='cases.ndjson', simulate=15000, depth=16, workers=4, timeout=1200)
     ctx.replay('cases.ndjson', label='lexer', prop='C03', corrupt=corrupt_lex, min_cases=20000)
     ctx.replay('cases.ndjson', label='parser', prop='C03PARSE', corrupt=corrupt_parse, min_cases=20000, count_traces=False)
-    ncli = sample_cli(ctx, 'cases.ndjson', 'cli_cases.ndjson', 250 if q else 6000, 60 if q else 400)
+    ncli = sample_cli(ctx, 'cases.ndjson', 'cli_cases.ndjson', 250 if q else 3000, 60 if q else 300)
     ctx.replay('cli_cases.ndjson', label='cli', prop='C03CLI', corrupt=corrupt_cli, min_cases=min(ncli, 200), count_traces=False)
 
     # ---- 3. code -> spec ----
-    ntr = 120 if q else 1500
+    ntr = 120 if q else 4000
     ctx.harness(['C03', 'record', '-seed', str(ctx.seed), '-n', str(ntr), '-out', ctx.path('trace.ndjson')])
     rejects = ctx.validate_traces('Trace_Lexer', 'Trace_Lexer', 'trace.ndjson', label='trace-lexer', timeout=2400,
                                   corrupt_event=corrupt_event)
